@@ -488,12 +488,16 @@ impl<'a> Ord for BorrowedTerm<'a> {
                 }
                 (BorrowedTerm::Map(a), BorrowedTerm::Map(b)) => {
                     a.len().cmp(&b.len()).then_with(|| {
-                        for ((k1, v1), (k2, v2)) in a.iter().zip(b.iter()) {
-                            match k1.cmp(k2) {
-                                Ordering::Equal => match v1.cmp(v2) {
-                                    Ordering::Equal => continue,
-                                    other => return other,
-                                },
+                        // Erlang compares maps by size, then all keys, then all values
+                        for (k1, k2) in a.keys().zip(b.keys()) {
+                            match compare_borrowed_map_keys(k1, k2) {
+                                Ordering::Equal => continue,
+                                other => return other,
+                            }
+                        }
+                        for (v1, v2) in a.values().zip(b.values()) {
+                            match v1.cmp(v2) {
+                                Ordering::Equal => continue,
                                 other => return other,
                             }
                         }
@@ -546,6 +550,25 @@ impl<'a> Index<&BorrowedTerm<'a>> for BorrowedTerm<'a> {
             _ => panic!("cannot index {} with a key", self.type_name()),
         }
     }
+}
+
+/// Map keys follow the term order, except that an integer sorts before the float it equals.
+fn compare_borrowed_map_keys(a: &BorrowedTerm<'_>, b: &BorrowedTerm<'_>) -> Ordering {
+    a.cmp(b).then_with(|| match (a, b) {
+        (BorrowedTerm::Integer(_) | BorrowedTerm::BigInt(_), BorrowedTerm::Float(_)) => {
+            Ordering::Less
+        }
+        (BorrowedTerm::Float(_), BorrowedTerm::Integer(_) | BorrowedTerm::BigInt(_)) => {
+            Ordering::Greater
+        }
+        (BorrowedTerm::Tuple(x), BorrowedTerm::Tuple(y)) => x
+            .iter()
+            .zip(y.iter())
+            .map(|(x, y)| compare_borrowed_map_keys(x, y))
+            .find(|o| *o != Ordering::Equal)
+            .unwrap_or(Ordering::Equal),
+        _ => Ordering::Equal,
+    })
 }
 
 type BorrowedListParts<'t, 'a> = (&'t [BorrowedTerm<'a>], Option<&'t BorrowedTerm<'a>>);
